@@ -3,6 +3,7 @@ package main
 // lockset.go: must-hold analysis for one sync.Mutex / sync.RWMutex access path inside one function.
 
 import (
+	"fmt"
 	"go/ast"
 	"go/types"
 )
@@ -245,3 +246,97 @@ func writeTargets(info *types.Info, n ast.Node) map[*ast.SelectorExpr]bool {
 	})
 	return w
 }
+
+// lockBalance decides, for every function (and literal) of a package and every mutex it operates
+// on: a Lock/RLock is reached only with the mutex not held by this function, an Unlock/RUnlock
+// only with the matching lock held, and the function ends with the mutex released (or releases
+// it in a deferred call). States are per access path; LUnknown (held on some paths only) fails.
+// entryHeld names functions that are entered with the lock held and must return with it held.
+func lockBalance(p *Prog, r *Report, rule, rel string, entryHeld map[string]bool) int {
+	pkg := p.Pkg(rel)
+	n := 0
+	p.AllFuncs(pkg, func(top *FuncCtx) {
+		for _, fc := range allCtxs(p, top) {
+			info := fc.Info()
+			type opSite struct {
+				v   int
+				op  lockOp
+				pos string
+			}
+			byKey := map[string][]opSite{}
+			names := map[string]string{}
+			deferred := map[string]bool{}
+			for _, v := range fc.G.V {
+				if v.Node == nil {
+					continue
+				}
+				_, isDefer := v.Node.(*ast.DeferStmt)
+				if _, isGo := v.Node.(*ast.GoStmt); isGo {
+					continue
+				}
+				inspectNoLit(v.Node, func(x ast.Node) bool {
+					c, ok := x.(*ast.CallExpr)
+					if !ok {
+						return true
+					}
+					op, mu := mutexOp(info, c)
+					if op == opNone {
+						return true
+					}
+					k := pathKey(info, mu)
+					if k == "" {
+						return true
+					}
+					names[k] = exprStr(mu)
+					if isDefer {
+						if op == opUnlock || op == opRUnlock {
+							deferred[k] = true
+						}
+						return true
+					}
+					byKey[k] = append(byKey[k], opSite{v.ID, op, p.posStr(c.Pos())})
+					return true
+				})
+			}
+			siteOrdinal := map[string]int{}
+			for k, sites := range byKey {
+				entry := LUnlocked
+				if entryHeld[fc.Name] {
+					entry = LWrite
+				}
+				states := fc.LockStates(k, entry)
+				for _, s := range sites {
+					n++
+					st := states[s.v]
+					var ok bool
+					var want string
+					switch s.op {
+					case opLock, opRLock:
+						ok, want = st == LUnlocked, "not held"
+					case opUnlock:
+						ok, want = st == LWrite, "write-locked"
+					case opRUnlock:
+						ok, want = st == LRead, "read-locked"
+					default:
+						continue // TryLock: decided where its result is tested
+					}
+					opName := [...]string{"", "Lock", "Unlock", "RLock", "RUnlock", "TryLock", "TryRLock"}[s.op]
+					siteOrdinal[names[k]+opName]++
+					r.Check(ok, rule, fmt.Sprintf("%s:%s.%s#%d", fc.Name, names[k], opName, siteOrdinal[names[k]+opName]), s.pos, "reached only with the mutex "+want, fmt.Sprintf("%s.%s() is reached with the mutex %s on some path (expected: %s): a path that skips an Unlock ends in a self-deadlock at the next Lock, one that unlocks twice panics", names[k], opName, st, want))
+				}
+				if !deferred[k] {
+					n++
+					want := LUnlocked
+					if entryHeld[fc.Name] {
+						want = LWrite
+					}
+					st := states[fc.G.Exit]
+					reachable := fc.G.Reach([]int{fc.G.Entry}, nil, nil)[fc.G.Exit]
+					r.Check(!reachable || st == want, rule, fmt.Sprintf("%s:%s:released-at-exit", fc.Name, names[k]), p.posStr(fc.Body.Pos()), "the function ends with the mutex "+want.String(), fmt.Sprintf("the function can end with %s %s (expected %s): a lock leaks out of (or is released twice by) this function", names[k], st, want))
+				}
+			}
+		}
+	})
+	return n
+}
+
